@@ -233,9 +233,9 @@ def gen_jobs(ctx):
     else:
         for k in F.KINDS:
             for n in sizes_small + sizes_big:
-                for _ in range(2):
+                for _ in range(3):
                     jobs.append(_one(rng, k, n))
-    for _ in range(500 if ctx.quick() else 2500):
+    for _ in range(500 if ctx.quick() else 6000):
         spec = F.gen_spec(rng, n=rng.choice(sizes_small + ([257, 8193] if rng.random() < 0.1 else [])))
         o = rt.gen_opts(rng, spec)
         o["file_scheme"] = rng.choice(["simple", "simple", "hive", "drill"])
